@@ -24,7 +24,7 @@ EXPLANATION = (
     "resets it only when duplicates are allowed; S7 PBT's exploration writes only sampled or clipped-and-cast values. "
     "NOT decided: that model-based candidates decode into the domain (C07 numeric clauses).")
 
-FLOOR = {"S1": 4, "S2": 5, "S3": 4, "S4": 5, "S5": 5, "S6": 3, "S7": 2}
+FLOOR = {"S1": 4, "S2": 5, "S3": 4, "S4": 5, "S5": 5, "S6": 7, "S7": 2}
 
 
 def s1(ctx, rep):
@@ -41,8 +41,16 @@ def s1(ctx, rep):
         at = ctx.facts(f).at(nid)
         rv = U(pp[0].args[0]).split(".")[0]
         ok = ("is", rv, "None", False) in at and ("is", f"{rv}.config", "None", False) in at
-        st = cfg.nodes[nid].ast
-        ok = ok and isinstance(st, ast.Assign) and U(st.targets[0]) == rv and U(kwarg(st.value, "config")) == U(pp[0])
+        # the suggestion variable is rebuilt with the post-processed configuration (directly or through a temporary)
+        from ..engine import deref
+        sts = [n_.ast for n_ in cfg.nodes if n_.kind == "stmt" and isinstance(n_.ast, ast.Assign) and U(n_.ast.targets[0]) == rv
+               and isinstance(n_.ast.value, ast.Call) and kwarg(n_.ast.value, "config") is not None
+               and deref(f, kwarg(n_.ast.value, "config")) is pp[0]]
+        if ok and len(sts) == 1:
+            sid = {n_.id for n_ in cfg.nodes if n_.ast is sts[0]}
+            ok = nid in sid or cfg.path([s_ for s_, l in cfg.succ[nid]], cfg.exit, deleted=sid, skip_labels=("exc",)) is None
+        else:
+            ok = False
         rets = [U(r.value) for r in returns_of(f)]
         ok = ok and rets == [rv]
         # no other guard can skip the post-processing
@@ -59,7 +67,8 @@ def s1(ctx, rep):
     nc = [d for d in local_defs(g, ncv) if not isinstance(d, tuple)]
     ok = len(nc) == 1 and U(nc[0]) == "self.config_space.copy()"
     upd = [x for x in walk_shallow(g.node) if isinstance(x, ast.Call) and fn_name(x) == "update" and U(x.func.value) == ncv]
-    ok = ok and len(upd) == 1 and isinstance(upd[0].args[0], ast.Call) and fn_name(upd[0].args[0]) == "cast_config_values"
+    from ..engine import deref
+    ok = ok and len(upd) == 1 and isinstance(deref(g, upd[0].args[0]), ast.Call) and fn_name(deref(g, upd[0].args[0])) == "cast_config_values"
     rep.put(ok, "S1", "agreement", "TrialScheduler._postprocess_config: copy of the space (constants kept) updated with the cast values", g, None, "",
             "the post-processed configuration does not start from the full configuration space or is not cast to the domain types")
     # who may call _suggest
@@ -377,6 +386,59 @@ def s6(ctx, rep):
     rep.put(ok, "S6", "guarded_by", "GridSearcher.get_config records initial configurations so the grid skips them", g, None, "")
 
 
+def s6b(ctx, rep):
+    """the grid is a product of lists of DISTINCT values: several grid positions of an integer / log-integer range decode
+    to the same value, so each per-hyperparameter list is de-duplicated before the product is formed"""
+    P = ctx.P
+    f = P.method("GridSearcher", "_generate_all_candidates_on_grid")
+    cfg = cfg_of(f)
+    prod = [x for x in walk_shallow(f.node) if isinstance(x, ast.Call) and fn_name(x) == "product" and x.args and isinstance(x.args[0], ast.Starred)]
+    if len(prod) != 1:
+        raise AnchorError("GridSearcher._generate_all_candidates_on_grid: product(*lists) not found")
+    lv = U(prod[0].args[0].value)
+
+    def dedup(e, depth=3):
+        """expression whose value has no repeated elements"""
+        from ..engine import local_defs as _ld
+        if isinstance(e, ast.Name) and depth > 0:
+            ds = _ld(f, e.id)
+            if len(ds) == 1 and isinstance(ds[0], ast.AST):
+                return dedup(ds[0], depth - 1)
+            return False
+        if isinstance(e, ast.Call) and fn_name(e) in ("list", "sorted", "tuple") and e.args:
+            return dedup(e.args[0])
+        if isinstance(e, ast.Call) and fn_name(e) in ("set", "frozenset", "unique", "fromkeys"):
+            return True
+        if isinstance(e, (ast.Set, ast.SetComp)):
+            return True
+        if isinstance(e, ast.List) and len(e.elts) == 1:
+            return True
+        return False
+    n = 0
+    for nd in cfg.nodes:
+        for x in cfg.node_walk(nd.id):
+            if not (isinstance(x, ast.Call) and fn_name(x) == "append" and U(x.func.value) == lv and x.args):
+                continue
+            n += 1
+            v = x.args[0]
+            ok, why = False, U(v)
+            if dedup(v):
+                ok = True
+            elif isinstance(v, ast.Attribute) and v.attr == "values" and ctx.has_fact(f, nd.id, lambda a: a[0] == "isinstance" and a[2] == "FiniteRange" and a[3] is True):
+                ok, why = True, "FiniteRange.values (lower + k * step, distinct by construction)"
+            elif isinstance(v, ast.Name):
+                defs = [m for m in cfg.nodes if m.kind == "stmt" and isinstance(m.ast, ast.Assign) and any(U(t) == v.id for t in m.ast.targets)]
+                good = {m.id for m in defs if dedup(m.ast.value)}
+                ok = bool(good) and all(m.id in good or cfg.path([s_ for s_, l in cfg.succ[m.id]], nd.id, deleted=good) is None for m in defs)
+                why = " | ".join(U(m.ast.value)[:50] for m in defs)
+            rep.put(ok, "S6", "taint", f"GridSearcher._generate_all_candidates_on_grid: value list `{U(v)[:30]}` is de-duplicated before the product", f, x, why,
+                    f"`{why}` reaches product(...) without passing set() / fromkeys() / unique(): grid positions that decode to the same value "
+                    "(integer and log-integer ranges) give repeated grid points - grid search suggests a configuration twice and says "
+                    "'nothing left' too late")
+    if n < 4:
+        raise AnchorError(f"C06-S6: {n} value lists appended to the grid (4 confirmed)")
+
+
 def s7(ctx, rep):
     P = ctx.P
     f = P.method("PopulationBasedTraining", "_explore")
@@ -412,4 +474,5 @@ def run(ctx, rep, tier="quick"):
     s5(ctx, rep)
     s5b(ctx, rep)
     s6(ctx, rep)
+    s6b(ctx, rep)
     s7(ctx, rep)
